@@ -171,5 +171,8 @@ func (p *Protocol) downloadBlockFromPeerOld(height int64, pid peer.ID) (*types.B
 	if !ok || blockData == nil || blockData.Block == nil {
 		return nil, fmt.Errorf("invalid block data in response")
 	}
+	if blockData.Block.GetHeight() != height {
+		return nil, fmt.Errorf("block height %d in response to request for height %d", blockData.Block.GetHeight(), height)
+	}
 	return blockData.Block, nil
 }
